@@ -386,6 +386,9 @@ func (w *worker) checkExpr(e Expr) {
 	for _, t := range e.Conv {
 		w.checkDecl("conv:"+t, "const c = "+t+"("+e.Src+")")
 	}
+	for _, t := range e.Sites {
+		w.checkSites(e.Src, t)
+	}
 }
 
 func (prop) Work(c core.Case) core.Result {
@@ -413,9 +416,9 @@ func (prop) Work(c core.Case) core.Result {
 
 func (prop) Drive(d *core.Driver) error {
 	depth := d.N(3, 4)
-	nExpr := d.N(10000, 150000)
+	nExpr := d.N(8000, 150000)
 	perCase := 20
-	d.T.Rule = fmt.Sprintf("a fixed systematic set (every boundary operand — literal, computed, converted, named typed/untyped constant at the edges of every integer width — against every small operand with every operator; every float32/float64 rounding-midpoint integer 2^k+2^(k-24), 2^k+2^(k-53) and neighbours with every floating-point and complex type) plus %d random constant expression trees of depth <= %d over the boundary literal set (0, ±1, 2^k-1/2^k/2^k+1 for k in 7,8,15,16,31,32,63,64,127,128,511,512, 2^53±1, 2^24±1, extreme/subnormal/huge floats, imaginary, rune, string, bool literals), all unary/binary operators, constant shifts, conversions to every basic type, real/imag/complex/len; each is declared as `const c = E`, `const c T = E` and `const c = T(E)` inside func main, type-checked by go/types (go/constant values) and built+run by scriggo; accept/reject and the printed Go values (dynamic type, value bit for bit) plus an exactness probe `c == <exact literal>` are compared. distinct_nontrivial counts distinct (declaration form, type of c, value class incl. magnitude class around the width boundaries and exact-rational vs big.Float representation, observation kind) tuples among accepted constants and (form, reference error class) among rejected ones", nExpr, depth)
+	d.T.Rule = fmt.Sprintf("a fixed systematic set (every boundary operand — literal, computed, converted, named typed/untyped constant at the edges of every integer width — against every small operand with every operator; every float32/float64 rounding midpoint 2^k+2^(k-24), 2^k+2^(k-53), integer and fractional, with neighbours, with every floating-point and complex type, in constant declarations and conversions and at 18 implicit conversion sites — variable initialiser, assignment, argument, result, literal elements, struct fields, map key and value, channel send, indirection; every number-literal form of the specification: each hexadecimal digit at each position of hexadecimal integer and floating-point literals, prefixes, underscores, exponents, legacy octals, imaginary forms, valid and invalid) plus %d random constant expression trees of depth <= %d over the boundary literal set (0, ±1, 2^k-1/2^k/2^k+1 for k in 7,8,15,16,31,32,63,64,127,128,511,512, 2^53±1, 2^24±1, extreme/subnormal/huge floats, imaginary, rune, string, bool literals), all unary/binary operators, constant shifts, conversions to every basic type, real/imag/complex/len; each is declared as `const c = E`, `const c T = E` and `const c = T(E)` inside func main, type-checked by go/types (go/constant values) and built+run by scriggo; accept/reject and the printed Go values (dynamic type, value bit for bit) plus an exactness probe `c == <exact literal>` are compared. distinct_nontrivial counts distinct (declaration form, type of c, value class incl. magnitude class around the width boundaries and exact-rational vs big.Float representation, observation kind) tuples among accepted constants and (form, reference error class) among rejected ones", nExpr, depth)
 	d.T.Assumptions = []string{"go/types and go/constant (go1.25 standard library, GoVersion go1.20) are the reference", "only constant expressions the generator grammar produces are covered",
 		"constant shifts with a count in (1074, 2^64) are not generated: go/types refuses them by an implementation restriction that is not in the language specification",
 		"constant shifts whose count is a typed floating-point or complex constant are not generated: go/types accepts them when the value is integral, contrary to the specification",
@@ -466,6 +469,9 @@ func (prop) Drive(d *core.Driver) error {
 		addSys(e)
 	}
 	for _, e := range midpointConversions() {
+		addSys(e)
+	}
+	for _, e := range literalForms() {
 		addSys(e)
 	}
 	if len(cur) > 0 {
